@@ -95,6 +95,7 @@ HARMLESS = [
     ('C18', 'sc3/base/systemactions.py', "        for action in cls._actions.copy():\n            cls._do_action(action)\n\n    @classmethod\n    def _do_action", "        for action in list(cls._actions):\n            cls._do_action(action)\n\n    @classmethod\n    def _do_action", 'SystemAction.run: list() instead of copy() for the snapshot'),
     ('C18', 'sc3/base/systemactions.py', "        cls._servers[server].update({action: (args, kwargs)})", "        cls._servers[server][action] = (args, kwargs)", 'ServerAction.add: item assignment instead of update'),
     ('C18', 'sc3/base/model.py', "        except KeyError as e:\n            err = True", "        except KeyError as e:\n            err = False", 'unregister stays silent on a missing registration (not asked for by C18)'),
+    ('C19', 'sc3/synth/envelope.py', "        return cls([0, level, 0], [dur, dur], 'sine')", "        return cls([0, level, 0], [dur, dur], 'sin')", "Env.sine: the other name of the same shape"),
 ]
 
 BREAKING = [
@@ -204,6 +205,9 @@ BREAKING = [
     ('C18', 'sc3/base/systemactions.py', "        if server is srv.Server.default and 'default' in cls._servers:", "        if 'default' in cls._servers:", "'default' server actions run for every server"),
     ('C18', 'sc3/base/model.py', "                fn.value(action, obj, msg, listener, *args, **kwargs)", "                fn.value(action, obj, msg, *args, **kwargs)", 'notification without its listener'),
     ('C18', 'sc3/base/model.py', "            elif listener is None:\n                del cls._registrations[obj][msg]", "            elif listener is None:\n                del cls._registrations[obj]", 'unregister(obj, msg) drops every message of the object'),
+    ('C19', 'sc3/synth/envelope.py', "return cls([0, level, 0], [attack_time, release_time], curve)", "return cls([0, level, 0], [release_time, attack_time], curve)", 'Env.perc: attack and release exchanged'),
+    ('C19', 'sc3/synth/envelope.py', "[attack_time, decay_time, release_time], curve, 2)", "[attack_time, decay_time, release_time], curve, 1)", 'Env.adsr: release node one early'),
+    ('C19', 'sc3/synth/envelope.py', "release_level = bi.dbamp(-100) if curve_no == 2 else 0", "release_level = bi.dbamp(-100) if curve_no == 3 else 0", 'Env.cutoff: exponential release aimed at zero'),
 ]
 
 
